@@ -327,6 +327,12 @@ func checkC20(p *core.Program, r *core.Report) {
 			if a.K == tf.KRecord && strings.HasSuffix(a.Name, "proveHandler") || (a.K == tf.KRecord && hasServeHTTP(p, a.Type)) {
 				usesHandler = true
 			}
+			// a handler built by a constructor and used through a pointer (&proveHandler{…})
+			if a.K == tf.KAlloc && !tf.Eq(a, ph) {
+				if at := ev.AllocType(a); at != nil && namedOf(at) != nil && inRepoObj(namedOf(at).Obj()) && namedOf(at) != namedOf(muxType) && (hasServeHTTP(p, at) || hasServeHTTP(p, types.NewPointer(at))) {
+					usesHandler = true
+				}
+			}
 		}
 		if !usesHandler {
 			continue
